@@ -205,19 +205,33 @@ func runC16(w *World, c *Check) {
 				continue
 			}
 			vals := cs.vals
-			var stores []*ssa.Store
-			for _, b := range regionOf(cs.blk) {
-				for _, in := range b.Instrs {
-					if st, ok := in.(*ssa.Store); ok && strings.HasPrefix(fa.R.R(st.Addr), "recv.") {
-						stores = append(stores, st)
+			// stores of the case, including those a setter helper introduced later makes through a
+			// pointer to the field (rendered in this function's terms)
+			type rst struct{ addr, val string }
+			var stores []rst
+			var walkStores func(a *FuncAn, blocks []*ssa.BasicBlock, depth int)
+			walkStores = func(a *FuncAn, blocks []*ssa.BasicBlock, depth int) {
+				for _, b := range blocks {
+					for _, in := range b.Instrs {
+						if st, ok := in.(*ssa.Store); ok && strings.HasPrefix(a.R.R(st.Addr), "recv.") {
+							stores = append(stores, rst{a.R.R(st.Addr), a.R.R(st.Val)})
+						}
+						if call, ok := in.(*ssa.Call); ok && depth < 2 {
+							if g := call.Call.StaticCallee(); g != nil && newHelper(g) {
+								sub := NewFuncAnCtx(a.W, g, a.CallArgs(call))
+								sub.R.inlineDepth = a.R.inlineDepth + 1
+								walkStores(sub, g.Blocks, depth+1)
+							}
+						}
 					}
 				}
 			}
+			walkStores(fa, regionOf(cs.blk), 0)
 			// (a) only the designated field is written
 			okField, hit := true, false
 			var others []string
 			for _, st := range stores {
-				a := fa.R.R(st.Addr)
+				a := st.addr
 				if a == "recv."+want.field || strings.HasPrefix(a, "recv."+want.field+".") {
 					hit = true
 				} else {
@@ -235,11 +249,11 @@ func runC16(w *World, c *Check) {
 			okVal, detail := false, ""
 			var parserCall string
 			for _, st := range stores {
-				a := fa.R.R(st.Addr)
+				a := st.addr
 				if !(a == "recv."+want.field || strings.HasPrefix(a, "recv."+want.field+".")) {
 					continue
 				}
-				v := fa.R.R(st.Val)
+				v := st.val
 				detail = trunc(v, 160)
 				switch want.kind {
 				case "bool":
@@ -281,31 +295,97 @@ func runC16(w *World, c *Check) {
 			case "str", "fields", "ips":
 				c.Ok("C16.libdefaults", fk, cs.key+":error", where, "no parser error to report (addresses that do not parse are skipped)")
 			default:
-				okErr, why := false, "no `parser error == nil` test found in the case"
+				okErr, why := false, "no test of the parser's error (or of a setter's verdict) with a rejecting branch found in the case"
 				for _, b := range regionOf(cs.blk) {
 					iff, ok := lastInstr(b).(*ssa.If)
 					if !ok {
 						continue
 					}
 					cd := fa.CondOf(iff)
-					if cd.Kind != "eq" || !(cd.L == "nil" || cd.R == "nil") {
+					// what the branch is about: the rendered condition (helpers introduced later are
+					// rendered as their bodies) plus, for a call, its arguments
+					about := cd.L + " " + cd.R
+					if call, isCall := stripNot(iff.Cond).(*ssa.Call); isCall {
+						about += " " + strings.Join(fa.CallArgs(call), " ")
+					}
+					if !containsAny(about, vals) && !strings.Contains(about, cs.line) {
 						continue
 					}
-					other := cd.L
-					if cd.L == "nil" {
-						other = cd.R
+					if parserCall != "" && !strings.Contains(about, parserCall) {
+						// the setter form: the parser runs inside the helper whose verdict is tested
+						if call, isCall := stripNot(iff.Cond).(*ssa.Call); !isCall || !newHelper(call.Call.StaticCallee()) {
+							if bo, isBo := stripNot(iff.Cond).(*ssa.BinOp); !isBo || !strings.Contains(fa.R.R(bo.X)+fa.R.R(bo.Y), strings.SplitN(parserCall, "(", 2)[0]) {
+								continue
+							}
+						}
 					}
-					if !containsAny(other, vals) && !strings.Contains(other, cs.line) {
-						continue
+					for k := 0; k < 2; k++ {
+						if rejectsWith(fa, b.Succs[k], b.Succs[1-k], `^config\.InvalidErrorf\(`) {
+							okErr = true
+						}
 					}
-					if parserCall != "" && other != parserCall+"#1" {
-						continue
+					if !okErr {
+						why = "no branch of " + trunc(cd.String(), 80) + " only returns config.InvalidErrorf(…)"
 					}
-					fail := b.Succs[1-cd.HoldsSucc]
-					if rejectsWith(fa, fail, b.Succs[cd.HoldsSucc], `^config\.InvalidErrorf\(`) {
-						okErr = true
-					} else {
-						why = "the failing branch of " + trunc(cd.String(), 80) + " does not only return config.InvalidErrorf(…)"
+				}
+				if !okErr {
+					// the merged form: the case only records the parser's (or setter's) verdict in a
+					// variable and one test after the switch rejects — follow the verdict into the phi
+					// that test branches on
+					flow := map[ssa.Value]bool{}
+					for _, b := range regionOf(cs.blk) {
+						for _, in := range b.Instrs {
+							call, isCall := in.(*ssa.Call)
+							if !isCall || !containsAny(strings.Join(fa.CallArgs(call), " "), vals) {
+								continue
+							}
+							flow[call] = true
+							if call.Referrers() != nil {
+								for _, ref := range *call.Referrers() {
+									if ex, isEx := ref.(*ssa.Extract); isEx {
+										flow[ex] = true
+									}
+								}
+							}
+						}
+					}
+					for round := 0; round < 3; round++ {
+						for v := range flow {
+							if v.Referrers() == nil {
+								continue
+							}
+							for _, ref := range *v.Referrers() {
+								switch x := ref.(type) {
+								case *ssa.Phi:
+									flow[x] = true
+								case *ssa.MakeInterface:
+									flow[x] = true
+								case *ssa.UnOp:
+									if x.Op == token.NOT {
+										flow[x] = true
+									}
+								}
+							}
+						}
+					}
+					for _, b := range fn.Blocks {
+						iff, isIf := lastInstr(b).(*ssa.If)
+						if !isIf {
+							continue
+						}
+						cv := stripNot(iff.Cond)
+						tested := flow[cv]
+						if bo, isBo := cv.(*ssa.BinOp); isBo && (flow[bo.X] || flow[bo.Y]) {
+							tested = true
+						}
+						if !tested {
+							continue
+						}
+						for k := 0; k < 2; k++ {
+							if rejectsWith(fa, b.Succs[k], b.Succs[1-k], `^config\.InvalidErrorf\(`) {
+								okErr = true
+							}
+						}
 					}
 				}
 				c.Decide(okErr, "C16.libdefaults", fk, cs.key+":error", where, "a value that does not parse returns an Invalid configuration error", why)
@@ -443,7 +523,8 @@ func runC16(w *World, c *Check) {
 		} {
 			ok, n := true, 0
 			for _, cd := range fa.Conds {
-				if cd.Kind != "bool" || !strings.HasPrefix(cd.L, p.call) || !strings.HasSuffix(cd.L, ".(config.UnsupportedDirective,ok)#1") {
+				// the test of this parser's error, possibly merged with the other sections' (a phi)
+				if cd.Kind != "bool" || !strings.Contains(cd.L, p.call) || !strings.HasSuffix(cd.L, ".(config.UnsupportedDirective,ok)#1") {
 					continue
 				}
 				n++
